@@ -50,8 +50,21 @@ MAP = [
  ("S54", "C11", "B", "ledger-reconciliation-uses-active-epoch-horizon", "a root that went through three writer epochs with a foreign transaction spliced over the middle epoch's", "first run: missed — and still NOT decided (see below)"),
  ("S55", "C13", "A", "edict-map-values-decoded-at-same-depth", "~32 000 levels of nesting through map values (about 64 KiB of input)", "first run: missed (R3 checked that a depth is compared, not that every recursive call advances it)"),
  ("S56", "C13", "B", "ingress-count-guard-multiplies-before-comparing", "a declared causal-parent count >= ~2^64/177 in a ~50 byte retained envelope", "first run: caught (C13.R6, written for S17, generalised)"),
+ ("S57", "C12", "A", "ingress-v2-reencode-gate-replaced-by-parent-count", "an EINGR002 record with >=2 distinct causal parents out of Ord order", "first run: missed — and the existing re-encode rule turned out to be VACUOUS for this decoder (pattern did not match `to_retained_bytes_v2`, then `continue`)"),
+ ("S58", "C12", "B", "cbor-length-headers-lose-minimal-width-check", "a hand-built string/array/map with a non-minimal length header", "first run: caught (C12.R3 width thresholds; collateral C13 alarms)"),
+ ("S59", "C14", "A", "guard-sets-widened-by-declared-edges", "a footprint that names an edge but not its attachment slot, and an executor that touches the slot", "first run: caught (C14.R4 guard-new mapping)"),
+ ("S60", "C14", "B", "warp-check-skipped-for-instance-ops", "a system-classified item emitting an instance op aimed at another warp", "first run: missed"),
+ ("S61", "C15", "A", "edge-overlap-compared-by-endpoints-only", "parent and strand both re-type the same edge (same endpoints) after the fork", "first run: missed"),
+ ("S62", "C15", "B", "fork-copies-all-parent-checkpoints", "parent checkpoint at tick T, fork at a non-tip tick with fork_tick+1 < T, the strand grows to length >= T and is replayed", "first run: caught (C07.R3/R5 fork bound rules)"),
+ ("S63", "C16", "A", "strand-tip-tick-posture-from-live-basis", "a live strand, an explicit tick equal to the child's tip, then a later parent or child commit, same request again", "first run: missed"),
+ ("S64", "C16", "B", "frontier-commit-stamp-lookup-swallowed", "the live frontier ahead of retained provenance (after ProvenanceService::restore, or a runtime rebuilt around a materialized state)", "first run: missed"),
+ ("S65", "C17", "A", "request-indexed-before-the-transaction-is-built", "a request whose public fields no longer hash to its request_id, then recorded_request or one more step and a recovery", "first run: caught (C17.R2 anchors + DuplicateRequest presence gate)"),
+ ("S66", "C17", "B", "tail-check-behind-genesis-early-return", "a crash between frame append and commit flush of the FIRST-EVER transaction, restart, one more step, one more recovery", "first run: missed (an Option decider was treated as always legitimate)"),
+ ("S67", "C18", "A", "max-min-through-zero-padded-comparator", "a Reduce(Max/Min) channel where the extreme is attained by payloads differing only in trailing zero bytes", "first run: missed"),
+ ("S68", "C18", "B", "commutative-channels-folded-on-arrival", "a Reduce(BitAnd) channel, a longer payload emitted before a shorter one", "first run: caught (C18.R1-R3 structure rules: pending map type, emit/finalize shape)"),
 ]
 SRC_PREFIX = {k: "out1" for k in ("S09", "S10", "S11", "S12", "S13", "S14", "S15", "S16", "S17", "S18", "S19", "S20", "S21", "S22", "S23", "S24", "S25", "S26", "S27", "S28")}
+SRC_PREFIX.update({k: "out2" for k in ("S29", "S30", "S31", "S32", "S33", "S34", "S37", "S38", "S41", "S42", "S45", "S46")})
 CHANGE = {
  "S09": "`checkpoint_for` replaced by a lazy per-head capture inside the commit loop: a second head on the same worldline overwrites the saved pre-pass frontier with one that already contains the first head's commit",
  "S10": "receipt-correlation undo entry is pushed after the index update, so `previous_pending_submission` is read after the removal and rollback never re-inserts the submission",
@@ -98,6 +111,18 @@ CHANGE = {
  "S54": "`reconcile_writer_epoch_closures`: `retained_start_lsn` prefers the active epoch's start over the oldest retained closed epoch's",
  "S55": "Edict `Decoder::value` map branch decodes the map value with `self.value(depth)` instead of `depth + 1`",
  "S56": "retained-ingress parent-count guards folded into a `read_count` helper that checks `count * encoded_len > remaining`",
+ "S57": "`from_retained_bytes_v2`: the decode/re-encode/compare gate is replaced by `causal_parents.len() != parent_count`",
+ "S58": "ABI CBOR `read_len` split into read_arg/read_int/read_len; the minimal-width check stayed only in read_int",
+ "S59": "`FootprintGuard::new` adds `edge_beta(e)` of every declared edge to the guard's attachment read/write sets",
+ "S60": "`check_op` restructured as `if is_instance_op {..} else {match op_warp ..}`: the cross-warp check no longer runs for instance ops",
+ "S61": "`RevalidationSlotValue::Edge` carries `(from, to)` from the reverse indexes instead of the whole `EdgeRecord`",
+ "S62": "`fork` drops the checkpoint filter and clones all source checkpoints",
+ "S63": "`basis_posture` treats `Tick(t)` at the strand child's tip as a frontier read and takes the posture from the live basis report",
+ "S64": "frontier commit-stamp lookup `…map_err(..)?` replaced by `.and_then(|t| provenance.entry(..).ok())`",
+ "S65": "`record_external_action_request` inserts the index entry first (doubling as duplicate check) and patches the commit digest after the append",
+ "S66": "the `tail_posture != Clean` check moves from `recover` into `external_action_wal_continuation`, after the genesis early return",
+ "S67": "Max/Min use `max_by`/`min_by` with a zero-padding comparator",
+ "S68": "commutative-reducer channels are folded as payloads arrive; the in-place BitAnd step never truncates a longer accumulator",
  "S48": "`restore_receipt_correlation` returns Ok early when the correlation is already present, skipping the committed-ingress refill",
  "S40": "`diff_edges` matches edges through the reverse indexes (from/to only): a type-only change emits no `UpsertEdge`",
 }
